@@ -44,7 +44,7 @@ pub fn check(c: &Case, ctx: &mut Ctx) -> Result<(), Failure> {
     let mut track = |bar: &RawBar, big: &mut f64, flow_big: &mut f64, prev: &mut Option<RawBar>| {
         *big = big.max(mag(bar));
         if let Some(pb) = prev {
-            if pb.tp() != bar.tp() {
+            if crate::refs::may_flow(pb, bar) {
                 *flow_big = flow_big.max((bar.tp() * bar.v).abs());
             }
         }
